@@ -119,13 +119,20 @@ def model(name):
             obj = lin(obj, t)
         cons = [["rel", ">=", lin(x0, x1), ["bin", "-", Q_, ["raw", 1.0, "float"]], "direct"]]
         return base, obj, cons, "min"
+    if name == "fn-of-parameters-only":
+        # functions whose argument holds parameters and no variable (a discount factor exp(-rate*t), a scale cosh(q)): constant
+        # with respect to the variables, not constant with respect to set()
+        disc = ["fn", "exp", ["neg", mul(P_, ["raw", 0.5, "float"])]]
+        obj = lin(lin(mul(disc, sq(["bin", "-", x0, ["raw", 1.0, "float"]])), mul(["fn", "cosh", Q_], sq(x1))), mul(["fn", "sin", lin(P_, Q_)], x1))
+        cons = [["rel", ">=", lin(x0, x1), ["fn", "tanh", Q_], "direct"]]
+        return base, obj, cons, "min"
     raise KeyError(name)
 
 
 MODELS = ["coef+rhs", "fn-arg+cons-coef", "vector-param", "lp-like", "exponent", "matrix-param", "bare-param-derivative",
           "max-concave", "constant-term", "deep-accumulated", "vector-param-on-the-right", "divisor-params-linear"]
 OPTIONAL_MODELS = ["matrix-param-function-api:quadratic_form", "matrix-param-function-api:matmul"]  # may be rejected at build time
-MODELS = MODELS + ["param-times-reduction"] + OPTIONAL_MODELS
+MODELS = MODELS + ["param-times-reduction", "fn-of-parameters-only"] + OPTIONAL_MODELS
 METHODS = ["auto", "SLSQP", "trust-constr"]
 
 
